@@ -1,4 +1,5 @@
 import BHS.Props.C01
+import BHS.Props.SqlShape
 open BHS.Props.C01
 #print axioms C01_inv_init
 #print axioms C01_inv_step
@@ -11,3 +12,4 @@ open BHS.Props.C01
 #print axioms C01_forbidden
 #print axioms C01_orphan_forever
 #print axioms C01_canonical_counterexample
+#print axioms BHS.Props.SqlShape.add_statements
